@@ -522,9 +522,67 @@ def r9_flags_flow(run, F):
     run.require(stored >= 5, "fewer than 5 ParseNode::DeclarationFlags constructions in the declaration parsers (%d)" % stored)
 
 
+def r10_span_end(run, F):
+    """A composite node covers the tokens [start, end): `EndOfSpan { end }` must hold the cursor *after* the last token that
+    belongs to the node.  Forward dataflow on the MIR of every function of the second-generation parser that builds an
+    EndOfSpan: the last token event on every path into the construction is a `cursor()` read, not a consumption (take,
+    consume, the true edge of consume_optional, or a call of another parse_* function).  `end = cursor(); take();` drops
+    the last piece of a three-piece string literal from the tree without any parse error."""
+    P = "delta::parser::"
+    sites = 0
+    for p, b in sorted(F.lib.bodies.items()):
+        if not p.startswith(P + "parse_") or p.count("::") != 2 or "mir" not in b:
+            continue
+        cfg = mirq.CFG(b)
+        targets = []
+        for i in sorted(cfg.reach):
+            for st in cfg.blocks[i]["s"]:
+                r = st.get("r", {})
+                if r.get("k") == "Agg" and str(r.get("adt", "")).endswith("ParseNode") and r.get("variant") == "EndOfSpan":
+                    targets.append(i)
+        if not targets:
+            continue
+        # transfer: per block (event of its terminator call), plus edge events for consume_optional's true edge
+        block_event = {}
+        edge_event = {}
+        for u, t in cfg.calls():
+            c = mirq.call_target(t) or ""
+            short = c.split("::")[-1]
+            if c.endswith("Tokens::cursor"):
+                block_event[u] = "cursor"
+            elif c.endswith(("Tokens::take", "Tokens::consume")) or (c.startswith(P + "parse_") and c.count("::") == 2):
+                block_event[u] = "consumed"
+            elif short == "consume_optional":
+                sw = mirq.bool_switch_after_call(cfg, u)
+                if sw is None:
+                    block_event[u] = "consumed"     # conservatively
+                else:
+                    edge_event[(t.get("to"), sw[0])] = "consumed"
+        state = {0: {"none"}}
+        work = [0]
+        while work:
+            x = work.pop()
+            out = set(state.get(x, set()))
+            if x in block_event:
+                out = {block_event[x]}
+            for y in cfg.succ[x]:
+                o2 = {edge_event[(x, y)]} if (x, y) in edge_event else out
+                if not o2 <= state.get(y, set()):
+                    state[y] = state.get(y, set()) | o2
+                    work.append(y)
+        for i in targets:
+            sites += 1
+            st = state.get(i, set())
+            run.ob("R10-SPAN-END", "%s|EndOfSpan" % p.split("::")[-1], st == {"cursor"}, F.where(b),
+                   "on every path into the construction of EndOfSpan the last token event must be a cursor() read; found %s "
+                   "(`consumed`: a token was taken after the end was read, so the span stops short of it)" % sorted(st))
+    run.floor("R10-SPAN-END", 2, "EndOfSpan construction sites (parse_type, parse_primary_expression)")
+
+
 def check(run):
     F = run.facts("A")
     r9_flags_flow(run, F)
+    r10_span_end(run, F)
     r1_balance(run, F)
     r2_covers(run, F)
     r3_layout(run, F)
